@@ -8,14 +8,24 @@ sys.path.insert(0, os.path.dirname(os.path.dirname(os.path.abspath(__file__))))
 from sa.loader import Program
 from sa.schema import extract
 from sa.props._family_specs import SPECS, __doc__ as DOC
+try:
+    from sa.props._family_specs import HELPERS
+except ImportError:
+    HELPERS = set()
+HELPERS = set(HELPERS) | {('cnfgen.families.subgraph', 'non_edges'), ('cnfgen.families.ramsey', '_vdw_ap_generator'), ('cnfgen.families.pebbling', '_uniqify_list')}
 
 prog = Program()
 print('"""%s"""\n' % DOC)
+print("# helper enumerators the axioms quantify over: their yield / return schema is compared the same way")
+print("HELPERS = {")
+for h in sorted(HELPERS):
+    print("    %r," % (h,))
+print("}\n")
 print("SPECS = {")
-for (mod, q) in SPECS:
+for (mod, q) in list(SPECS) + [h for h in sorted(HELPERS) if h not in SPECS]:
     print("    (%r, %r): [" % (mod, q))
     seen = set()
-    for e in extract(prog.func(mod, q)):
+    for e in extract(prog.func(mod, q), helper=(mod, q) in HELPERS):
         if e.key() in seen:
             continue
         seen.add(e.key())
